@@ -443,6 +443,9 @@ func (lb *LoadBalancer) AddBackend(backendCfg config.BackendConfig) error {
 
 	// Create a reverse proxy for this backend with optimized transport
 	proxy := httputil.NewSingleHostReverseProxy(backendURL)
+	// Relay what the backend flushes at once: with the default (0) only event streams and bodies of unknown
+	// length are flushed, a response with a Content-Length sits in the server's buffer until it ends.
+	proxy.FlushInterval = -1
 
 	// Configure custom transport with timeouts (LEETCODE-STYLE OPTIMIZATION!)
 	dialTimeout := time.Duration(lb.config.Server.Timeouts.BackendDial) * time.Second
